@@ -29,6 +29,7 @@ FILE_DEPS = {
     "xz/reader.rs": ["xz.rs"],
     "lzip/writer.rs": ["lzip.rs", "enc/lzma_writer.rs", "enc/lzma2_writer.rs"],
     "enc/lzma_writer.rs": ["enc/lzma2_writer.rs"],
+    "enc/lzma2_writer.rs": ["enc/range_enc.rs"],
     "enc/range_enc.rs": ["range_dec.rs"],
     "filter/bcj/arm.rs": ["filter/bcj.rs"], "filter/bcj/ppc.rs": ["filter/bcj.rs"], "filter/bcj/sparc.rs": ["filter/bcj.rs"],
     "filter/bcj/x86.rs": ["filter/bcj.rs"], "filter/bcj/ia64.rs": ["filter/bcj.rs"], "filter/bcj/riscv.rs": ["filter/bcj.rs"],
